@@ -322,8 +322,19 @@ func (o *c09Obs) check(final bool) {
 	}
 }
 
+var c09SchedEnv *c09Env
+
 func c09RunSchedule(t testing.TB, rec *kit.Rec, sc c09Scenario, choose func(n int) int) (trace string) {
-	e := c09Setup(t)
+	// one manager for all schedules (building one costs ~20 ms: subnet file, liveness tester, GeoIP);
+	// every schedule starts from an empty registry
+	if c09SchedEnv == nil {
+		c09SchedEnv = c09Setup(t)
+	}
+	e := c09SchedEnv
+	e.rm.registeredDecoys = NewRegisteredDecoys()
+	if err := e.rm.AddTransport(pb.TransportType_Min, min.Transport{}); err != nil {
+		t.Fatal(err)
+	}
 	phantom := net.IPv4(192, 122, 190, 40).To4()
 	o := &c09Obs{rec: rec, e: e, phantom: phantom, keys: map[string]int{}, usedSeen: map[string]bool{}, label: sc.Name}
 	rng := kit.Rand("c09-sched-" + sc.Name)
@@ -480,6 +491,7 @@ func TestVerifC09Schedules(t *testing.T) {
 	}
 	for _, s := range scenarios {
 		distinct := map[string]bool{}
+		capped := false
 		if s.exhaustive {
 			// stateless DFS: a schedule is the list of choices; backtrack on the last choice that has an untried alternative
 			var prefix []int
@@ -509,6 +521,11 @@ func TestVerifC09Schedules(t *testing.T) {
 					rec.Sample(map[string]interface{}{"scenario": s.sc.Name, "schedule": tr})
 				}
 				widths = w
+				if len(distinct) >= 400000 {
+					rec.Note("enumeration of '" + s.sc.Name + "' stopped at 400000 schedules (not exhaustive)")
+					capped = true
+					break
+				}
 				// next: increment the last position that can be incremented
 				i := len(cur) - 1
 				for i >= 0 && cur[i]+1 >= widths[i] {
@@ -519,7 +536,9 @@ func TestVerifC09Schedules(t *testing.T) {
 				}
 				prefix = append(append([]int{}, cur[:i]...), cur[i]+1)
 			}
-			rec.Exhaustive(fmt.Sprintf("all %d interleavings at yield points of: %s", len(distinct), s.sc.Name))
+			if !capped {
+				rec.Exhaustive(fmt.Sprintf("all %d interleavings at yield points of: %s", len(distinct), s.sc.Name))
+			}
 		}
 		if s.walks > 0 {
 			rng := kit.Rand("c09-walk-" + s.sc.Name)
